@@ -281,6 +281,7 @@ class ContractMixin:
         from .symex import Frame, EngineError, Raised
         self.cur_fn = fi.qualname
         fr = Frame(fi, fi.module, fi.cls)
+        self.cur_frame = fr
         st = State()
         params = fi.params
         for p in params:
